@@ -136,3 +136,44 @@ package control
 //@   modifies c.packedResponse, c.packedResponseTTL, c.packedResponseCreatedAt, c.deadlineNano, allof(dnsmessage.RR_Header.Ttl)
 //@   ensures dl(c) == c.Deadline.UnixNano()
 //@   ensures err == nil ==> hasPacked(c) && c.packedResponseTTL.Load() == ttl && c.packedResponseCreatedAt.Load() == now.UnixNano()
+
+// ---------------------------------------------------------------------------------------------
+// C18: the dial target follows dial_mode.
+//
+// The knowledge predicates are the control plane's own lookups; their only side effect is dropping an
+// expired entry, which does not change any later answer, so they are treated as pure (assumption).
+
+//@ func (*DnsController).HasDnsKnowledge
+//@   pure
+//@   trusted
+//@ func (*DnsController).cacheKey
+//@   pure
+//@   trusted
+//@ func (*ControlPlane).lookupRealDomainCache
+//@   pure
+//@   trusted
+//@ func (*ControlPlane).triggerRealDomainProbe
+//@   trusted
+//@ func isIPLikeDomain
+//@   vpure
+//@   trusted
+
+//@ func (*ControlPlane).ChooseDialTarget
+//@   let portStr() = strconv.Itoa(dst.Port())
+//@   let strip(d string) = (strings.HasPrefix(d, "[") && strings.HasSuffix(d, "]")) ? d[1:len(d)-1] : d
+//@   let isAddr(d string) = nth(netip.ParseAddr(d), 1) == nil
+//@   let hasPort(d string) = nth(net.SplitHostPort(d), 2) == nil
+//@   let useIP() = dialIp && dialTarget == dst.String()
+//@   let useName() = (isAddr(strip(domain)) ==> dialIp && dialTarget == net.JoinHostPort(strip(domain), portStr())) \
+//@        && (!isAddr(strip(domain)) && hasPort(strip(domain)) ==> !dialIp && dialTarget == strip(domain)) \
+//@        && (!isAddr(strip(domain)) && !hasPort(strip(domain)) ==> !dialIp && dialTarget == net.JoinHostPort(strip(domain), portStr()))
+//@   let known() = old(c.dnsController.HasDnsKnowledge(c.dnsController.cacheKey(domain, common.AddrToDnsType(dst.Addr()))))
+//@   let genuine() = known() || old(nth(c.lookupRealDomainCache(domain), 0) && nth(c.lookupRealDomainCache(domain), 1))
+//@   requires c.dnsController != nil && c.log != nil
+//@   requires len(domain) <= 1000000
+//@   ensures c.dialMode == consts.DialMode_Ip || domain == "" || outbound.IsReserved() ==> useIP() && !shouldReroute
+//@   ensures !outbound.IsReserved() && domain != "" && c.dialMode == consts.DialMode_Domain && isIPLikeDomain(domain) ==> useIP() && !shouldReroute
+//@   ensures !outbound.IsReserved() && domain != "" && c.dialMode == consts.DialMode_Domain && !isIPLikeDomain(domain) && !genuine() ==> useIP() && !shouldReroute
+//@   ensures !outbound.IsReserved() && domain != "" && c.dialMode == consts.DialMode_Domain && !isIPLikeDomain(domain) && genuine() ==> useName() && shouldReroute
+//@   ensures !outbound.IsReserved() && domain != "" && c.dialMode == consts.DialMode_DomainPlus ==> useName() && !shouldReroute
+//@   ensures !outbound.IsReserved() && domain != "" && c.dialMode == consts.DialMode_DomainCao ==> useName() && shouldReroute
